@@ -50,6 +50,13 @@ Proof.
   - apply IH; auto. intros x y Hx Hy. apply Inj; now right.
 Qed.
 
+Lemma skipn_skipn {A} (x y : nat) (l : list A) : skipn x (skipn y l) = skipn (x + y) l.
+Proof.
+  revert l; induction y as [|y IH]; intros l; cbn [skipn].
+  - now rewrite Nat.add_0_r.
+  - destruct l as [|h t]; [now rewrite !skipn_nil|]. rewrite Nat.add_succ_r. cbn [skipn]. apply IH.
+Qed.
+
 Lemma prod_perm l l' : Permutation l l' -> prod l = prod l'.
 Proof. induction 1; cbn; lia. Qed.
 
